@@ -7,6 +7,10 @@ reference peer (vlib.peer / vlib.cmdset / vlib.ps38 only).
                           ... release handler                                                -> read must be True
   scenario C (control)  : C-FIND id 7 ... N-EVENT-REPORT-RQ served ... C-CANCEL(7) ... release -> read must be True
   scenario D (cap)      : C-FIND id 7 ... C-CANCEL(100..109) (ten other ids) ... C-CANCEL(7) ... release -> True?
+                          (the 11th cancel is put on the message queue; when the operation has ended the reactor hands
+                          it to _serve_request: AttributeError escapes and ends the association thread)
+  scenario E (side effect, outside C23): C-GET parked, N-EVENT-REPORT served (its thread sets _is_paused = False), then
+                          the handler yields an instance: send_c_store() spins forever in `while not self._is_paused`
 
 Run:  cd /verif && /venv/bin/python tools/triage_C23.py          (VERIF_REPO=<dir> to point at a scratch copy)
 """
@@ -102,6 +106,66 @@ def scenario(name, script):
     return reads
 
 
+def scenario_e():
+    """C-GET id 7 parked before its first yield; N-EVENT-REPORT served meanwhile; then the handler yields one instance:
+    does the C-STORE sub-operation request ever reach the peer?  (side effect of the same shared-state reset:
+    the N-EVENT-REPORT thread's _serve_request sets Association._is_paused = False)"""
+    import traceback
+    from pydicom.dataset import Dataset, FileMetaDataset
+    GET = "1.2.840.10008.5.1.4.1.2.1.3"
+    CT = "1.2.840.10008.5.1.4.1.1.2"
+    gate = threading.Semaphore(0)
+    parked = threading.Event()
+
+    def on_get(event):
+        yield 1
+        parked.set()
+        gate.acquire(timeout=10)
+        ds = Dataset()
+        ds.file_meta = FileMetaDataset()
+        ds.file_meta.TransferSyntaxUID = ILE
+        ds.SOPClassUID = CT
+        ds.SOPInstanceUID = "1.2.3.4"
+        ds.PatientID = "X"
+        yield 0xFF00, ds
+
+    ae = AE("T-SCP")
+    ae.dimse_timeout = ae.acse_timeout = ae.network_timeout = 5
+    ae.add_supported_context(GET, ILE)
+    ae.add_supported_context(SCPM, ILE)
+    ae.add_supported_context(CT, ILE, scu_role=True, scp_role=True)
+    srv = ae.start_server(("127.0.0.1", 0), block=False,
+                          evt_handlers=[(evt.EVT_C_GET, on_get), (evt.EVT_N_EVENT_REPORT, lambda e: (0x0000, None))])
+    peer = Peer.connect(srv.server_address[1])
+    print("== E side effect: N-EVENT-REPORT served while a C-GET handler is running, then a C-STORE sub-operation")
+    try:
+        ac = peer.associate(ps38.make_rq(called="T-SCP", pcs=[{"id": 1, "abs": GET, "ts": [ILE]}, {"id": 3, "abs": SCPM, "ts": [ILE]},
+                                                               {"id": 5, "abs": CT, "ts": [ILE]}],
+                                         extra_ui=[{"k": "role", "uid": CT, "scu": 1, "scp": 1}]))
+        assert ac["type"] == "AC" and set(peer.accepted) == {1, 3, 5}, ac
+        peer.send_dimse(1, cmdset.make("C-GET-RQ", AffectedSOPClassUID=GET, MessageID=7, Priority=0, CommandDataSetType=1), IDENT)
+        assert parked.wait(5)
+        peer.send_dimse(3, cmdset.make("N-EVENT-REPORT-RQ", AffectedSOPClassUID=SCPM, AffectedSOPInstanceUID=SCPM + ".1",
+                                       MessageID=99, EventTypeID=1))
+        m = peer.recv_dimse(5)
+        print("   N-EVENT-REPORT response status: %r" % (m and m.get("cmd", {}).get("Status")))
+        time.sleep(0.3)
+        gate.release()
+        m = peer.recv_dimse(4)
+        name = m and cmdset.FIELD_NAME.get(m.get("cmd", {}).get("CommandField"))
+        print("   next message seen by the peer within 4 s: %r (expected C-STORE-RQ)" % (name,))
+        if m is None:
+            for tid, fr in sys._current_frames().items():
+                st = traceback.extract_stack(fr)
+                if st[-1].name.startswith("send_c_") :
+                    print("   acceptor thread is in %s line %d: %s" % (st[-1].name, st[-1].lineno, st[-1].line))
+            for a in ae.active_associations:
+                a._is_paused = True      # clean-up of the witness: let the thread leave the loop
+    finally:
+        peer.close()
+        ae.shutdown()
+
+
 if __name__ == "__main__":
     a = scenario("A control: cancel(7) then read", [("cancel", 7)])
     b = scenario("B witness: cancel(7), N-EVENT-REPORT served, then read", [("cancel", 7), ("ner",)])
@@ -110,3 +174,4 @@ if __name__ == "__main__":
                  [("cancel", i) for i in range(100, 110)] + [("cancel", 7)])
     print("verdict: A first read %s (expected True); B first read %s (expected True); C first read %s (expected True); "
           "D first read %s (expected True)" % (a[:1], b[:1], c[:1], d[:1]))
+    scenario_e()
